@@ -19,6 +19,9 @@ pub struct GenCfg {
     pub max_fields: usize,
     pub min_variants: usize,
     pub min_fields: usize,
+    pub min_type_params: usize,
+    /// only field types and expressions that mention no std item by its prelude name (C19 shadowing)
+    pub plain_types_only: bool,
     pub generics: bool,
     pub lifetimes: bool,
     pub consts: bool,
@@ -68,6 +71,8 @@ impl GenCfg {
             max_fields: 5,
             min_variants: 0,
             min_fields: 0,
+            min_type_params: 0,
+            plain_types_only: false,
             generics: true,
             lifetimes: true,
             consts: true,
@@ -211,12 +216,12 @@ pub fn build(d: &mut Dna, cfg: &GenCfg) -> Built {
 
     // ---------------------------------------------------------------- generics
     let mut gens = Generics::default();
-    let base: Vec<FTy> = base_types().into_iter().filter(|b| !with_copy || b.has(caps::COPY)).collect();
+    let base: Vec<FTy> = base_types().into_iter().filter(|b| !with_copy || b.has(caps::COPY)).filter(|b| !cfg.plain_types_only || !b.src.chars().any(|c| c.is_uppercase())).collect();
     let mut lt_names = pool_or(&cfg.lifetime_names, &["a", "b"]);
     let mut ty_names = pool_or(&cfg.typaram_names, &TYPARAM_NAMES);
     let const_names = pool_or(&cfg.const_names, &["N", "M"]);
     if cfg.generics {
-        let nt = d.weighted(&[50, 30, 15, 5]);
+        let nt = d.weighted(&[50, 30, 15, 5]).max(cfg.min_type_params);
         for _ in 0..nt {
             if ty_names.is_empty() {
                 break;
@@ -237,7 +242,8 @@ pub fn build(d: &mut Dna, cfg: &GenCfg) -> Built {
             }
         }
         if cfg.consts && d.chance(15) {
-            let name = d.choose(&const_names).clone();
+            let free: Vec<String> = const_names.iter().filter(|n| !gens.types.iter().any(|t| &t.name == *n)).cloned().collect();
+            let name = if free.is_empty() { "N".to_string() } else { d.choose(&free).clone() };
             gens.consts.push(ConstParam { name, ty: "usize".into(), default: None, inst: "2".into() });
         }
     }
@@ -534,6 +540,9 @@ pub fn build(d: &mut Dna, cfg: &GenCfg) -> Built {
                     for (e, tys) in default_exprs() {
                         for (ty, expect) in tys {
                             let c = expr_ty_caps(ty);
+                            if cfg.plain_types_only && (e.chars().any(|c| c.is_uppercase() && c != 'M') || ty.chars().any(|c| c.is_uppercase()) || expect.chars().any(|c| c.is_uppercase())) {
+                                continue;
+                            }
                             let mut n = need;
                             if union_ {
                                 n |= caps::COPY;
@@ -584,7 +593,7 @@ pub fn build(d: &mut Dna, cfg: &GenCfg) -> Built {
             } else {
                 let mut cands: Vec<FTy> = Vec::new();
                 let mut all: Vec<FTy> = base.clone();
-                if cfg.partial_types {
+                if cfg.partial_types && !cfg.plain_types_only {
                     all.extend(partial_types());
                 }
                 all.extend(cfg.extra_types.iter().cloned());
@@ -601,7 +610,7 @@ pub fn build(d: &mut Dna, cfg: &GenCfg) -> Built {
                         if pt.caps & need == need {
                             gen_cands.push(pt.clone());
                         }
-                        if cfg.wrappers {
+                        if cfg.wrappers && !cfg.plain_types_only {
                             for w in WRAPS {
                                 let lt = gens.lifetimes.first().map(|l| l.0.as_str());
                                 if let Some(wt) = wrap(w, &pt, lt) {
@@ -630,7 +639,7 @@ pub fn build(d: &mut Dna, cfg: &GenCfg) -> Built {
                         gen_cands.push(t);
                     }
                 }
-                if cfg.wrappers && d.chance(12) {
+                if cfg.wrappers && !cfg.plain_types_only && d.chance(12) {
                     let w = *d.choose(&WRAPS);
                     if let Some(wt) = wrap(w, &base[d.pick(base.len().min(5))], None) {
                         if wt.caps & need == need && (!want_key || wt.has(caps::KEY)) {
@@ -701,11 +710,9 @@ pub fn build(d: &mut Dna, cfg: &GenCfg) -> Built {
                             if v == i64::MAX >> 1 {
                                 v = isize::MAX as i64;
                             }
-                            while taken.contains(&v) {
-                                v = v.wrapping_add(1);
-                                if v > (isize::MAX as i64) - 2 {
-                                    v = -100;
-                                }
+                            // never collide with another explicit rank nor with the default ranks isize::MIN + position
+                            while taken.contains(&v) || v < isize::MIN as i64 + 64 {
+                                v = if v >= (isize::MAX as i64) - 2 || v < isize::MIN as i64 + 64 { -100 } else { v + 1 };
                             }
                             taken.push(v);
                             *r = v;
@@ -914,14 +921,14 @@ pub fn build(d: &mut Dna, cfg: &GenCfg) -> Built {
             bs.push("Key".into());
         }
         if clone_params.contains(&t.name) {
-            bs.push(if with_copy { "Copy".into() } else { "Clone".into() });
+            bs.push(if with_copy { "::core::marker::Copy".into() } else { "::core::clone::Clone".into() });
         }
-        if kind == Kind::Union && !bs.iter().any(|b| b == "Copy") {
-            bs.retain(|b| b != "Clone");
-            bs.push("Copy".into());
+        if kind == Kind::Union && !bs.iter().any(|b| b.ends_with("Copy")) {
+            bs.retain(|b| !b.ends_with("Clone"));
+            bs.push("::core::marker::Copy".into());
         }
         if d.chance(10) {
-            bs.push("Sized".into());
+            bs.push("::core::marker::Sized".into());
         }
         if !bs.is_empty() {
             if in_where {
